@@ -53,6 +53,14 @@ JsonMatch(exp, obs) ==
     [] exp.t = "a" -> obs.t = "a" /\ Len(obs.v) = Len(exp.v) /\ \A i \in 1..Len(exp.v) : JsonMatch(exp.v[i], obs.v[i])
     [] exp.t = "o" -> obs.t = "o" /\ Len(obs.v) = Len(exp.v) /\ \A i \in 1..Len(exp.v) : obs.v[i][1] = exp.v[i][1] /\ JsonMatch(exp.v[i][2], obs.v[i][2])
     [] OTHER -> exp = obs
+\* equality of two observed JSON values (harness form), field by field so that differently typed contents are never compared
+RECURSIVE JEq(_, _)
+JEq(a, b) == /\ a.t = b.t
+             /\ CASE a.t = "null" -> TRUE
+                  [] a.t \in {"bool", "u", "i", "s", "f"} -> a.v = b.v
+                  [] a.t = "a" -> Len(a.v) = Len(b.v) /\ \A i \in 1..Len(a.v) : JEq(a.v[i], b.v[i])
+                  [] a.t = "o" -> Len(a.v) = Len(b.v) /\ \A i \in 1..Len(a.v) : a.v[i][1] = b.v[i][1] /\ JEq(a.v[i][2], b.v[i][2])
+                  [] OTHER -> FALSE
 \* finite float: exponent field not all ones
 Finite32(v) == ~(v[4] % 128 = 127 /\ v[3] >= 128)
 Finite64(v) == ~(v[8] % 128 = 127 /\ v[7] >= 240)
